@@ -223,3 +223,37 @@ Definition C04_prefix_stmt : Prop :=
     needle_ok cfg (rp ns) (cs ns) = true ->
     run (with_prefix cfg false) a hs ns = Match s0 i0 -> run (with_prefix cfg true) a hs ns = Match s1 i1 ->
     s0 <= s1 /\ s1 <= s0 + 8.
+
+(* ---- the executable predicate of known finding K2: the score matrix is used ---------------------- *)
+(* does the optimal entry point reach the score matrix?  (mirrors the dispatch of fuzzy_impl and the
+   slab guard of fuzzy_optimal; independent of prefer_prefix) *)
+Definition dp_window (cfg : config) (hs ns : ustr) : option (N * N) :=
+  let h := cs hs in let n := cs ns in
+  if lenN h <? lenN n then None else
+  match n with
+  | [] => None
+  | _ :: nrest =>
+    if lenN n =? lenN h then None else
+    match nrest with
+    | [] => None
+    | _ =>
+      match rp hs, rp ns with
+      | Ascii, Ascii =>
+        match prefilter_ascii cfg h n false with
+        | None => None
+        | Some (start, _, end_) => if lenN n =? end_ - start then None else Some (start, end_)
+        end
+      | Ascii, Unicode => None
+      | Unicode, _ =>
+        match prefilter_non_ascii cfg h n false with
+        | None => None
+        | Some (start, end_) => if lenN n =? end_ - start then None else Some (start, end_)
+        end
+      end
+    end
+  end.
+Definition dp_taken (cfg : config) (hs ns : ustr) : bool :=
+  match dp_window cfg hs ns with
+  | Some (start, end_) => slab_alloc_ok (rp hs) (lenN (sliceN start end_ (cs hs))) (lenN (cs ns))
+  | None => false
+  end.
